@@ -35,7 +35,7 @@ class C01:
                        "threading.Thread/Lock in coba.pipes.lines", "harness learners/environments/evaluators (deterministic user code)"]
 
     def gen(self, rng, tier, index):
-        return {"spec": X.gen_spec(rng), "config": X.gen_config(rng), "knobs": X.gen_knobs(rng)}
+        return {"spec": X.gen_spec(rng, initdraw=True), "config": X.gen_config(rng), "knobs": X.gen_knobs(rng)}
 
     def run(self, cfg, seed, choices=None):
         spec = cfg["spec"]
@@ -87,6 +87,10 @@ class C01:
             if d:
                 v = vio("config_dependent_result", f"in-process vs processes={cfg['config'][0]},maxchunksperchild={cfg['config'][1]},"
                                                    f"maxtasksperchunk={cfg['config'][2]}: {d}")
+                import json as _json
+                if '"initdraw"' in _json.dumps(spec["learners"]):
+                    # (a learner that has already drawn from its own CobaRandom when it is copied or pickled: see the known finding)
+                    v["key"] = "cobarandom_copy_rewinds_to_its_seed"
             else:
                 ref2, _, _ = X.run_inproc(spec)
                 d2 = X.diff_tables(t_ref, X.tables(ref2))
